@@ -1,2 +1,978 @@
-(* C05 — lemmas and proofs. *)
-From Dastard Require Import Common.ZX C05.Types C05.Model C05.Spec.
+(* C05 — the publisher / write-control level: invariant tying the model's writers to the checker's state,
+   and the proof that every model history passes the checker. *)
+From Coq Require Import ZifyBool ZifyNat.
+From Dastard Require Import Common.ZX C05.Types C05.Model C05.Spec C05.RoundTrip.
+Open Scope Z_scope.
+
+(* ================================================================ small list facts *)
+
+Lemma all4_length {A B C D} (R : A -> B -> C -> D -> Prop) la lb lc ld :
+  all4 R la lb lc ld -> length lb = length la /\ length lc = length la /\ length ld = length la.
+Proof. induction 1; cbn; [auto | lia]. Qed.
+
+Lemma all4_impl {A B C D} (R R' : A -> B -> C -> D -> Prop) la lb lc ld :
+  (forall a b c d, In a la -> R a b c d -> R' a b c d) -> all4 R la lb lc ld -> all4 R' la lb lc ld.
+Proof.
+  intros H X. induction X; constructor.
+  - apply H; [now left | assumption].
+  - apply IHX. intros; apply H; [now right | assumption].
+Qed.
+
+Lemma concat_map_app {A} (f : A -> list Z) a b : concat (map f (a ++ b)) = concat (map f a) ++ concat (map f b).
+Proof. now rewrite map_app, concat_app. Qed.
+
+Lemma concat_map_nil {A} (f : A -> list Z) l :
+  (forall x, f x <> []) -> concat (map f l) = [] -> l = [].
+Proof.
+  intros H E. destruct l as [|x l]; [reflexivity|]. cbn in E.
+  apply app_eq_nil in E as [E _]. now apply H in E.
+Qed.
+
+Lemma zlen_concat_const {A} (f : A -> list Z) l k :
+  (forall x, In x l -> zlen (f x) = k) -> zlen (concat (map f l)) = zlen l * k.
+Proof.
+  intros H. induction l as [|x l IH]; [reflexivity|].
+  cbn [map concat]. rewrite zlen_app, zlen_cons, IH by (intros; apply H; now right).
+  rewrite (H x) by now left. lia.
+Qed.
+
+(* ================================================================ payload encoders of PublishData *)
+
+Definition penc22 (h : hdr22) (r : rec) : list Z :=
+  ljh22_record (h22_sfdiv h) (h22_sfoff h) (r_frame r) (Z.quot (r_ns r) 1000) (r_data r).
+Definition penc3 (r : rec) : list Z :=
+  ljh3_record (r_pre r + 1) (r_frame r) (Z.quot (r_ns r) 1000) (r_data r).
+
+Lemma penc22_as_enc h r : penc22 h r = enc22 (h22_sfdiv h) (h22_sfoff h) (rec22_args r).
+Proof. reflexivity. Qed.
+Lemma penc3_as_enc r : penc3 r = enc3 (rec3_args r).
+Proof. reflexivity. Qed.
+
+Lemma penc22_nonnil h r : penc22 h r <> [].
+Proof.
+  intros E. pose proof (zlen_enc22 (h22_sfdiv h) (h22_sfoff h) (rec22_args r)) as H.
+  rewrite <- penc22_as_enc, E in H. pose proof (zlen_nonneg (r_data (rec22_args r))). change (zlen (@nil Z)) with 0 in H. lia.
+Qed.
+Lemma penc3_nonnil r : penc3 r <> [].
+Proof.
+  intros E. pose proof (zlen_enc3 (rec3_args r)) as H.
+  rewrite <- penc3_as_enc, E in H. pose proof (zlen_nonneg (r_data (rec3_args r))). change (zlen (@nil Z)) with 0 in H. lia.
+Qed.
+Lemma encoff_nonnil r : encoff r <> [].
+Proof.
+  intros E. pose proof (zlen_encoff r) as H. rewrite E in H.
+  pose proof (zlen_nonneg (r_coefs r)). change (zlen (@nil Z)) with 0 in H. lia.
+Qed.
+
+(* ================================================================ the record loops *)
+
+Lemma pub22_records_spec h rs : forall s, w_created s = true ->
+  pub22_records h s rs =
+  mkw true (w_hdr s) (w_nrec s + zlen (accepted22 (h22_nsamp h) rs))
+      (w_bytes s ++ concat (map (penc22 h) (accepted22 (h22_nsamp h) rs))) (w_closed s).
+Proof.
+  induction rs as [|r rs IH]; intros s Hc.
+  - cbn. rewrite app_nil_r, Z.add_0_r. destruct s; cbn in *; now subst.
+  - cbn [pub22_records accepted22 filter]. unfold w22_record.
+    change (r_data (rec22_args r)) with (r_data r).
+    destruct (zlen (r_data r) =? h22_nsamp h) eqn:E; cbn [negb fst].
+    + rewrite Hc. cbn [negb fst]. rewrite IH by (cbn; assumption).
+      cbn [w_count w_append w_created w_hdr w_nrec w_bytes w_closed map concat].
+      unfold accepted22. rewrite zlen_cons, <- app_assoc. f_equal. lia.
+    + fold (accepted22 (h22_nsamp h) rs). apply IH. assumption.
+Qed.
+
+Lemma pub3_records_spec rs : forall s, w_created s = true ->
+  pub3_records s rs =
+  mkw true (w_hdr s) (w_nrec s + zlen rs) (w_bytes s ++ concat (map penc3 rs)) (w_closed s).
+Proof.
+  induction rs as [|r rs IH]; intros s Hc.
+  - cbn. rewrite app_nil_r, Z.add_0_r. destruct s; cbn in *; now subst.
+  - cbn [pub3_records]. unfold w3_record. rewrite Hc. cbn [negb fst]. rewrite IH by (cbn; assumption).
+    cbn [w_count w_append w_created w_hdr w_nrec w_bytes w_closed map concat].
+    rewrite zlen_cons, <- app_assoc. f_equal. lia.
+Qed.
+
+Lemma puboff_records_spec h rs : forall s, w_created s = true ->
+  puboff_records h s rs =
+  (mkw true (w_hdr s) (w_nrec s + zlen (off_prefix (ho_nbases h) rs))
+       (w_bytes s ++ concat (map encoff (off_prefix (ho_nbases h) rs))) (w_closed s),
+   (length (off_prefix (ho_nbases h) rs) =? length rs)%nat).
+Proof.
+  induction rs as [|r rs IH]; intros s Hc.
+  - cbn. rewrite app_nil_r, Z.add_0_r. destruct s; cbn in *; now subst.
+  - cbn [puboff_records off_prefix]. unfold woff_record.
+    destruct (zlen (r_coefs r) =? ho_nbases h) eqn:E; cbn [negb].
+    + rewrite Hc. cbn [negb]. rewrite IH by (cbn; assumption).
+      cbn [w_count w_append w_created w_hdr w_nrec w_bytes w_closed map concat length].
+      rewrite zlen_cons, <- app_assoc. f_equal. f_equal. lia.
+    + cbn [map concat length]. rewrite app_nil_r. change (zlen (@nil rec)) with 0. rewrite Z.add_0_r.
+      destruct s; cbn in *; now subst.
+Qed.
+
+(* ================================================================ the writer invariant *)
+
+(* [hb] = the header bytes of this file; [payload] = the encoded records it must hold *)
+Definition WInv (hb : list Z) (s : wstate) (payload : list Z) : Prop :=
+  (w_created s = false /\ w_hdr s = false /\ w_bytes s = [] /\ payload = []) \/
+  (w_created s = true /\ w_hdr s = true /\ w_bytes s = hb ++ payload).
+
+Lemma WInv_init hb : WInv hb w_init [].
+Proof. left. auto. Qed.
+
+Section Pub.
+  Variable render22 : hdr22 -> list Z.
+  Variable render3 : hdr3 -> list Z.
+  Variable renderoff : hdroff -> list Z.
+
+  Notation publish := (publish render22 render3 renderoff).
+  Notation bstep := (bstep render22 render3 renderoff true).
+  Notation brun := (brun render22 render3 renderoff true).
+  Notation stop_chan := (stop_chan render22 render3 renderoff).
+
+  (* what the three create-and-header prologues of PublishData do *)
+  Lemma open22 h s pay rs :
+    WInv (render22 h) s pay -> rs <> [] ->
+    exists s', (if w_hdr s then Some (Some (h, pub22_records h s rs))
+                else match w_create s with
+                     | (s1, WOk) => Some (Some (h, pub22_records h (fst (w22_header render22 h s1)) rs))
+                     | _ => None
+                     end) = Some (Some (h, s'))
+               /\ WInv (render22 h) s' (pay ++ concat (map (penc22 h) (accepted22 (h22_nsamp h) rs))).
+  Proof.
+    intros [(Hc & Hh & Hb0 & Hp) | (Hc & Hh & Hb)] Hrs.
+    - rewrite Hh. unfold w_create. rewrite Hc. unfold w22_header. cbn [w_created negb fst].
+      eexists; split; [reflexivity|].
+      rewrite pub22_records_spec by reflexivity. right. cbn. subst pay. rewrite Hb0. cbn. auto.
+    - rewrite Hh. eexists; split; [reflexivity|].
+      rewrite pub22_records_spec by assumption. right. cbn. rewrite Hb, app_assoc. auto.
+  Qed.
+
+  Lemma open3 h s pay rs :
+    WInv (render3 h) s pay -> rs <> [] ->
+    exists s', (if w_hdr s then Some (Some (h, pub3_records s rs))
+                else match w_create s with
+                     | (s1, WOk) => Some (Some (h, pub3_records (fst (w3_header render3 h s1)) rs))
+                     | _ => None
+                     end) = Some (Some (h, s'))
+               /\ WInv (render3 h) s' (pay ++ concat (map penc3 rs)).
+  Proof.
+    intros [(Hc & Hh & Hb0 & Hp) | (Hc & Hh & Hb)] Hrs.
+    - rewrite Hh. unfold w_create. rewrite Hc. unfold w3_header. cbn [w_created w_hdr negb fst]. rewrite Hh. cbn [negb fst].
+      eexists; split; [reflexivity|].
+      rewrite pub3_records_spec by reflexivity. right. cbn. subst pay. rewrite Hb0. cbn. auto.
+    - rewrite Hh. eexists; split; [reflexivity|].
+      rewrite pub3_records_spec by assumption. right. cbn. rewrite Hb, app_assoc. auto.
+  Qed.
+
+  Lemma openoff h pj bs s pay rs :
+    WInv (renderoff h ++ off_header_tail pj bs) s pay -> rs <> [] ->
+    exists s', (if w_hdr s then Some s
+                else match w_create s with
+                     | (s1, WOk) => Some (fst (woff_header renderoff h pj bs s1))
+                     | _ => None
+                     end) = Some s'
+               /\ w_created s' = true
+               /\ WInv (renderoff h ++ off_header_tail pj bs) (fst (puboff_records h s' rs))
+                       (pay ++ concat (map encoff (off_prefix (ho_nbases h) rs))).
+  Proof.
+    intros [(Hc & Hh & Hb0 & Hp) | (Hc & Hh & Hb)] Hrs.
+    - rewrite Hh. unfold w_create. rewrite Hc. unfold woff_header. cbn [w_created w_hdr negb fst]. rewrite Hh. cbn [negb fst].
+      eexists; split; [reflexivity|]. split; [reflexivity|].
+      rewrite puboff_records_spec by reflexivity. right. cbn. subst pay. rewrite Hb0. cbn. auto.
+    - rewrite Hh. eexists; split; [reflexivity|]. split; [assumption|].
+      rewrite puboff_records_spec by assumption. right. cbn. rewrite Hb, app_assoc. auto.
+  Qed.
+
+  (* ---------------- the headers the model writes for a channel ---------------- *)
+  Definition model_hdr22 (sp : srcp) (c : chanp) : hdr22 :=
+    mkh22 2 2 (cp_rows c) (cp_cols c) (cp_row c) (cp_col c) (sp_nchan sp) (cp_name c) (cp_number c) (cp_index c)
+          (sp_sfdiv sp) (cp_sfoff c) 2 (sp_npre sp) (sp_nsamp sp) 1 (sp_tbm sp) (sp_tbe sp)
+          (cp_px c) (cp_py c) (cp_pname c) (sp_source sp).
+  Definition model_hdr3 (sp : srcp) (c : chanp) : hdr3 :=
+    mkh3 ljh3_fmt ljh3_ver (sp_tb64 sp) (cp_rows c) (cp_cols c) (sp_sfdiv sp) (cp_row c) (cp_col c) (cp_sfoff c).
+  Definition model_hdroff (sp : srcp) (c : chanp) (pj bs : matrix) (desc : list Z) : hdroff :=
+    mkhoff off_fmt off_ver (cp_index c) (cp_name c) (cp_number c) (sp_npre sp) (sp_nsamp sp) (sp_tb64 sp) (m_rows pj)
+           (m_rows pj) (m_cols pj) (m_rows bs) (m_cols bs) desc
+           (cp_rows c) (cp_cols c) (sp_nchan sp) (sp_sfdiv sp) (cp_col c) (cp_row c) (cp_sfoff c)
+           (cp_px c) (cp_py c) (cp_pname c) (sp_source sp).
+
+  (* ---------------- one channel: model publisher vs checker state ---------------- *)
+  Definition chan_rel (sp : srcp) (st : sst) (c : chanp) (acc accoff : list rec) (p : pub) : Prop :=
+    (has_writer p = true -> p_paused p = s_paused st) /\
+    Forall (pubrec_fits sp c) acc /\ Forall (pubrec_fits sp c) accoff /\
+    Forall (fun r => zlen (r_coefs r) = nb_of c) accoff /\
+    match p22 p with
+    | Some (h, s) => s_t22 st = true /\ h = model_hdr22 sp c /\
+                     WInv (render22 h) s (concat (map (penc22 h) (accepted22 (sp_nsamp sp) acc)))
+    | None => s_t22 st = false
+    end /\
+    match p3 p with
+    | Some (h, s) => s_t3 st = true /\ h = model_hdr3 sp c /\ WInv (render3 h) s (concat (map penc3 acc))
+    | None => s_t3 st = false
+    end /\
+    match poff p with
+    | Some (h, pj, bs, s) =>
+        s_toff st = true /\ (exists desc, off_eligible c = Some (pj, bs, desc) /\ h = model_hdroff sp c pj bs desc) /\
+        WInv (renderoff h ++ off_header_tail pj bs) s (concat (map encoff accoff))
+    | None => s_toff st = false \/ off_eligible c = None
+    end.
+
+  Definition BInv (sp : srcp) (cs : list chanp) (st : sst) (ps : list pub) : Prop :=
+    if s_active st
+    then all4 (chan_rel sp st) cs (s_acc st) (s_accoff st) ps /\ existsb has_writer ps = true
+    else Forall (fun p => has_writer p = false) ps /\ length ps = length cs.
+
+  (* ---------------- publish ---------------- *)
+  Lemma off_prefix_sub nb rs : incl (off_prefix nb rs) rs.
+  Proof.
+    induction rs as [|r rs IH]; cbn; [apply incl_refl|].
+    destruct (zlen (r_coefs r) =? nb); [|apply incl_nil_l].
+    apply incl_cons; [now left | apply incl_tl, IH].
+  Qed.
+  Lemma off_prefix_good nb rs : Forall (fun r => zlen (r_coefs r) = nb) (off_prefix nb rs).
+  Proof.
+    induction rs as [|r rs IH]; cbn; [constructor|].
+    destruct (zlen (r_coefs r) =? nb) eqn:E; [constructor; [lia | exact IH] | constructor].
+  Qed.
+
+  Lemma publish_ret p rs : snd (publish p rs) = BOk \/ snd (publish p rs) = BErr.
+  Proof.
+    unfold Model.publish. destruct rs as [|r rs]; [now left|].
+    destruct (p_paused p); [now left|]. destruct (negb (has_writer p)); [now left|].
+    repeat match goal with
+           | |- context [match ?x with _ => _ end] => destruct x; cbn [snd]; auto
+           | |- context [if ?x then _ else _] => destruct x; cbn [snd]; auto
+           | |- context [let (_, _) := ?x in _] => destruct x; cbn [snd]; auto
+           end.
+  Qed.
+
+  Lemma ho_nbases_model sp c pj bs desc : off_eligible c = Some (pj, bs, desc) -> ho_nbases (model_hdroff sp c pj bs desc) = nb_of c.
+  Proof. intros E. unfold nb_of. rewrite E. reflexivity. Qed.
+
+  (* publishing while the cycle is open and unpaused *)
+  Lemma publish_rel sp st c acc accoff p rs :
+    s_active st = true -> s_paused st = false ->
+    chan_rel sp st c acc accoff p -> Forall (pubrec_fits sp c) rs ->
+    let st' := mksst true false (s_t22 st) (s_t3 st) (s_toff st) (s_acc st) (s_accoff st) in
+    chan_rel sp st' c (acc ++ rs) (accoff ++ off_prefix (nb_of c) rs) (fst (publish p rs))
+    /\ has_writer (fst (publish p rs)) = has_writer p.
+  Proof.
+    intros Hact Hpa (Hpz & Hf1 & Hf2 & Hnb & H22 & H3 & Hoff) Hrs st'.
+    assert (Hf1' : Forall (pubrec_fits sp c) (acc ++ rs)) by (apply Forall_app; auto).
+    assert (Hf2' : Forall (pubrec_fits sp c) (accoff ++ off_prefix (nb_of c) rs)).
+    { apply Forall_app; split; [assumption|]. rewrite Forall_forall in *. intros x Hx. apply Hrs. now apply off_prefix_sub in Hx. }
+    assert (Hnb' : Forall (fun r => zlen (r_coefs r) = nb_of c) (accoff ++ off_prefix (nb_of c) rs)).
+    { apply Forall_app; split; [assumption | apply off_prefix_good]. }
+    destruct rs as [|r0 rs0] eqn:Ers.
+    { (* empty batch: nothing happens *)
+      cbn [Model.publish fst off_prefix]. rewrite !app_nil_r. split; [|reflexivity].
+      split; [intros X; rewrite (Hpz X); exact Hpa|]. repeat split; assumption. }
+    rewrite <- Ers in *. assert (Hne : rs <> []) by (rewrite Ers; discriminate).
+    unfold Model.publish. rewrite Ers. rewrite <- Ers.
+    destruct (has_writer p) eqn:Hw.
+    2:{ (* no writer at all *)
+      destruct (p_paused p); cbn [negb fst]; (split; [|assumption]);
+        (split; [intros X; rewrite Hw in X; discriminate|]);
+        unfold has_writer in Hw; destruct (p22 p), (p3 p), (poff p); try discriminate;
+        repeat split; try assumption. }
+    rewrite (Hpz eq_refl), Hpa. cbn [negb].
+    (* LJH22 *)
+    assert (E22 : exists q22,
+      match p22 p with
+      | Some (h, s) => if w_hdr s then Some (Some (h, pub22_records h s rs))
+                       else match w_create s with
+                            | (s1, WOk) => Some (Some (h, pub22_records h (fst (w22_header render22 h s1)) rs))
+                            | _ => None end
+      | None => Some None
+      end = Some q22 /\
+      match q22 with
+      | Some (h, s) => s_t22 st = true /\ h = model_hdr22 sp c /\
+                       WInv (render22 h) s (concat (map (penc22 h) (accepted22 (sp_nsamp sp) (acc ++ rs))))
+      | None => s_t22 st = false
+      end /\ (match q22 with Some _ => true | None => false end = match p22 p with Some _ => true | None => false end)).
+    { destruct (p22 p) as [[h s]|].
+      - destruct H22 as (Ht & Hh & Hi). destruct (open22 h s _ rs Hi Hne) as (s' & E & Hi').
+        exists (Some (h, s')). split; [exact E|]. split; [|reflexivity]. split; [assumption|]. split; [assumption|].
+        unfold accepted22 in *. rewrite filter_app, concat_map_app.
+        replace (h22_nsamp h) with (sp_nsamp sp) in Hi' by (subst h; reflexivity). exact Hi'.
+      - exists None. auto. }
+    destruct E22 as (q22 & -> & H22' & Hsame22).
+    cbn [p3 p22 poff p_paused].
+    (* LJH3 *)
+    assert (E3 : exists q3,
+      match p3 p with
+      | Some (h, s) => if w_hdr s then Some (Some (h, pub3_records s rs))
+                       else match w_create s with
+                            | (s1, WOk) => Some (Some (h, pub3_records (fst (w3_header render3 h s1)) rs))
+                            | _ => None end
+      | None => Some None
+      end = Some q3 /\
+      match q3 with
+      | Some (h, s) => s_t3 st = true /\ h = model_hdr3 sp c /\ WInv (render3 h) s (concat (map penc3 (acc ++ rs)))
+      | None => s_t3 st = false
+      end /\ (match q3 with Some _ => true | None => false end = match p3 p with Some _ => true | None => false end)).
+    { destruct (p3 p) as [[h s]|].
+      - destruct H3 as (Ht & Hh & Hi). destruct (open3 h s _ rs Hi Hne) as (s' & E & Hi').
+        exists (Some (h, s')). split; [exact E|]. split; [|reflexivity]. split; [assumption|]. split; [assumption|].
+        rewrite concat_map_app. exact Hi'.
+      - exists None. auto. }
+    destruct E3 as (q3 & -> & H3' & Hsame3).
+    cbn [p3 p22 poff p_paused].
+    (* OFF *)
+    destruct (poff p) as [[[[h pj] bs] s]|] eqn:Epoff.
+    - destruct Hoff as (Ht & (desc & Hel & Hh) & Hi).
+      destruct (openoff h pj bs s _ rs Hi Hne) as (s' & E & Hc' & Hi').
+      rewrite E. destruct (puboff_records h s' rs) as [s3 ok] eqn:Epr. cbn [fst] in *.
+      split.
+      + split; [intros _; reflexivity|]. split; [assumption|]. split; [assumption|]. split; [assumption|].
+        cbn [p22 p3 poff]. split; [exact H22'|]. split; [exact H3'|].
+        split; [assumption|]. split; [exists desc; auto|].
+        rewrite concat_map_app.
+        replace (nb_of c) with (ho_nbases h) by (subst h; apply ho_nbases_model; assumption). exact Hi'.
+      + unfold has_writer. cbn [p22 p3 poff]. destruct q22, q3; reflexivity.
+    - split.
+      + split; [intros _; reflexivity|]. split; [assumption|]. split; [assumption|]. split; [assumption|].
+        cbn [p22 p3 poff]. split; [exact H22'|]. split; [exact H3'|]. exact Hoff.
+      + unfold has_writer in *. cbn [p22 p3 poff]. rewrite Epoff in Hw.
+        destruct q22, q3, (p22 p), (p3 p); try discriminate; reflexivity.
+  Qed.
+
+  (* publishing when the checker does not collect: paused, or no cycle open *)
+  Lemma publish_paused p rs : p_paused p = true -> fst (publish p rs) = p.
+  Proof. intros H. unfold Model.publish. destruct rs; [reflexivity|]. now rewrite H. Qed.
+  Lemma publish_nowriter p rs : has_writer p = false -> fst (publish p rs) = p.
+  Proof. intros H. unfold Model.publish. destruct rs; [reflexivity|]. destruct (p_paused p); [reflexivity|]. now rewrite H. Qed.
+End Pub.
+
+(* ================================================================ files at STOP *)
+
+Lemma quot1000_i64 ns : in_i64 ns -> in_i64 (Z.quot ns 1000).
+Proof.
+  unfold in_i64. change (2 ^ 63) with 9223372036854775808. intros H.
+  destruct (Z_le_gt_dec 0 ns) as [Hp | Hn].
+  - rewrite Z.quot_div_nonneg by lia.
+    pose proof (Z.div_mod ns 1000 ltac:(lia)). pose proof (Z.mod_pos_bound ns 1000 ltac:(lia)). lia.
+  - replace ns with (- (- ns)) by lia. rewrite Z.quot_opp_l by lia. rewrite Z.quot_div_nonneg by lia.
+    pose proof (Z.div_mod (- ns) 1000 ltac:(lia)). pose proof (Z.mod_pos_bound (- ns) 1000 ltac:(lia)). lia.
+Qed.
+
+Section Stop.
+  Variable render22 : hdr22 -> list Z.
+  Variable render3 : hdr3 -> list Z.
+  Variable renderoff : hdroff -> list Z.
+  Variable sp : srcp.
+  Hypothesis Hns : 0 <= sp_nsamp sp.
+  Hypothesis Hdec : dec7_near (sp_tbn sp) (sp_tbd sp) (sp_tbm sp) (sp_tbe sp) = true.
+  Hypothesis Hf64 : f64_near (sp_tbn sp) (sp_tbd sp) (sp_tb64 sp) = true.
+
+  Lemma hdr22_ok_model c : hdr22_ok (true_hdr22 sp c) (sp_tbn sp) (sp_tbd sp) (model_hdr22 sp c) = true.
+  Proof.
+    unfold hdr22_ok, true_hdr22, model_hdr22.
+    cbn [h22_vmaj h22_vmin h22_rows h22_cols h22_row h22_col h22_nchan h22_name h22_number h22_index h22_sfdiv
+         h22_sfoff h22_word h22_npre h22_nsamp h22_spp h22_tbm h22_tbe h22_px h22_py h22_pname h22_source].
+    rewrite !Z.eqb_refl, !zlist_eqb_refl, Hdec. reflexivity.
+  Qed.
+  Lemma hdr3_ok_model c : hdr3_ok (true_hdr3 sp c) (sp_tbn sp) (sp_tbd sp) (model_hdr3 sp c) = true.
+  Proof.
+    unfold hdr3_ok, true_hdr3, model_hdr3.
+    cbn [h3_fmt h3_ver h3_tb h3_rows h3_cols h3_sfdiv h3_row h3_col h3_sfoff].
+    rewrite !Z.eqb_refl, Hf64. reflexivity.
+  Qed.
+  Lemma hdroff_ok_model c pj bs desc :
+    hdroff_ok (true_hdroff sp c pj bs desc) (sp_tbn sp) (sp_tbd sp) (model_hdroff sp c pj bs desc) = true.
+  Proof.
+    unfold hdroff_ok, true_hdroff, model_hdroff.
+    cbn [ho_fmt ho_ver ho_index ho_name ho_number ho_maxpre ho_maxsamp ho_tb ho_nbases ho_prows ho_pcols ho_brows ho_bcols
+         ho_desc ho_rows ho_cols ho_nchan ho_sfdiv ho_col ho_row ho_sfoff ho_px ho_py ho_pname ho_source].
+    rewrite !Z.eqb_refl, !zlist_eqb_refl, Hf64. reflexivity.
+  Qed.
+
+  Lemma d22_eqb_refl x : d22_eqb x x = true.
+  Proof. unfold d22_eqb. now rewrite !Z.eqb_refl, zlist_eqb_refl. Qed.
+  Lemma d3_eqb_refl x : d3_eqb x x = true.
+  Proof. unfold d3_eqb. now rewrite !Z.eqb_refl, zlist_eqb_refl. Qed.
+  Lemma doff_eqb_refl x : doff_eqb x x = true.
+  Proof. unfold doff_eqb. now rewrite !Z.eqb_refl, zlist_eqb_refl. Qed.
+
+  Lemma accepted22_len n acc r : In r (accepted22 n acc) -> zlen (r_data r) = n.
+  Proof. unfold accepted22. rewrite filter_In. intros [_ H]. lia. Qed.
+  Lemma accepted22_sub n acc : incl (accepted22 n acc) acc.
+  Proof. unfold accepted22. intros x H. now apply filter_In in H. Qed.
+
+  (* ---- LJH 2.2 ---- *)
+  Lemma file22_ok_closed c s acc :
+    Forall (pubrec_fits sp c) acc ->
+    WInv (render22 (model_hdr22 sp c)) s (concat (map (penc22 (model_hdr22 sp c)) (accepted22 (sp_nsamp sp) acc))) ->
+    file22_ok (true_hdr22 sp c) (sp_tbn sp) (sp_tbd sp) (expect22 (sp_sfdiv sp) (cp_sfoff c))
+              (accepted22 (sp_nsamp sp) acc) (closed_file render22 (Some (model_hdr22 sp c, s))) = true.
+  Proof.
+    intros Hfit [(Hc & Hh & Hb0 & Hp) | (Hc & Hh & Hb)]; unfold closed_file; rewrite Hc.
+    - apply concat_map_nil in Hp; [|apply penc22_nonnil]. now rewrite Hp.
+    - set (h := model_hdr22 sp c) in *. set (A := accepted22 (sp_nsamp sp) acc) in *.
+      unfold split_file, file22_ok. rewrite Hb.
+      rewrite zskipn_app_exact by reflexivity.
+      rewrite hdr22_ok_model.
+      assert (Hlen : zlen (concat (map (penc22 h) A)) = zlen A * (16 + 2 * sp_nsamp sp)).
+      { apply zlen_concat_const. intros x Hx. rewrite penc22_as_enc, zlen_enc22.
+        change (r_data (rec22_args x)) with (r_data x). now rewrite (accepted22_len _ _ _ Hx). }
+      change (h22_nsamp h) with (sp_nsamp sp).
+      rewrite zlen_app, Hlen.
+      destruct (0 <=? zlen (render22 h)) eqn:E0; [|pose proof (zlen_nonneg (render22 h)); lia].
+      rewrite Z.eqb_refl. cbn [andb].
+      replace (concat (map (penc22 h) A))
+        with (concat (map (fun r => ljh22_record (sp_sfdiv sp) (cp_sfoff c) (r_frame r) (r_ns r) (r_data r)) (map rec22_args A)))
+        by (rewrite map_map; reflexivity).
+      rewrite ljh22_roundtrip_lemma; [| exact Hns |].
+      + rewrite map_map. apply list_eqb_refl, d22_eqb_refl.
+      + rewrite Forall_forall. intros x Hx. apply in_map_iff in Hx as (r & <- & Hr).
+        pose proof (accepted22_len _ _ _ Hr) as Hl. apply accepted22_sub in Hr.
+        rewrite Forall_forall in Hfit. destruct (Hfit r Hr) as (H1 & H2 & H3 & H4 & H5 & H6 & H7 & _).
+        repeat split; try assumption; try (apply quot1000_i64; assumption); try apply H1.
+  Qed.
+
+  (* ---- LJH 3 ---- *)
+  Lemma sum_sizes3 acc : zlen (concat (map penc3 acc)) = sum_z (map (fun r => 24 + 2 * zlen (r_data r)) acc).
+  Proof.
+    induction acc as [|r acc IH]; [reflexivity|].
+    cbn [map concat sum_z fold_right]. rewrite zlen_app, penc3_as_enc, zlen_enc3. fold (sum_z (map (fun r => 24 + 2 * zlen (r_data r)) acc)).
+    rewrite IH. reflexivity.
+  Qed.
+
+  Lemma file3_ok_closed c s acc :
+    Forall (pubrec_fits sp c) acc ->
+    WInv (render3 (model_hdr3 sp c)) s (concat (map penc3 acc)) ->
+    file3_ok (true_hdr3 sp c) (sp_tbn sp) (sp_tbd sp) expect3 acc (closed_file render3 (Some (model_hdr3 sp c, s))) = true.
+  Proof.
+    intros Hfit [(Hc & Hh & Hb0 & Hp) | (Hc & Hh & Hb)]; unfold closed_file; rewrite Hc.
+    - apply concat_map_nil in Hp; [|apply penc3_nonnil]. now rewrite Hp.
+    - set (h := model_hdr3 sp c) in *.
+      unfold split_file, file3_ok. rewrite Hb.
+      rewrite zskipn_app_exact by reflexivity.
+      rewrite hdr3_ok_model.
+      rewrite zlen_app, sum_sizes3.
+      destruct (0 <=? zlen (render3 h)) eqn:E0; [|pose proof (zlen_nonneg (render3 h)); lia].
+      rewrite Z.eqb_refl. cbn [andb].
+      replace (concat (map penc3 acc))
+        with (concat (map (fun r => ljh3_record (r_pre r) (r_frame r) (r_ns r) (r_data r)) (map rec3_args acc)))
+        by (rewrite map_map; reflexivity).
+      rewrite ljh3_roundtrip_lemma.
+      + rewrite map_map. apply list_eqb_refl, d3_eqb_refl.
+      + rewrite Forall_forall. intros x Hx. apply in_map_iff in Hx as (r & <- & Hr).
+        rewrite Forall_forall in Hfit. destruct (Hfit r Hr) as (H1 & H2 & H3 & H4 & H5 & H6 & H7 & _).
+        repeat split; try assumption; try (apply quot1000_i64; assumption); try apply H5; try apply H2.
+  Qed.
+
+  (* ---- OFF ---- *)
+  Lemma fileoff_ok_closed c pj bs desc s accoff :
+    off_eligible c = Some (pj, bs, desc) -> matrix_wf pj -> matrix_wf bs ->
+    Forall (pubrec_fits sp c) accoff -> Forall (fun r => zlen (r_coefs r) = nb_of c) accoff ->
+    WInv (renderoff (model_hdroff sp c pj bs desc) ++ off_header_tail pj bs) s (concat (map encoff accoff)) ->
+    fileoff_ok (true_hdroff sp c pj bs desc) (sp_tbn sp) (sp_tbd sp) pj bs accoff
+               (closed_file renderoff (Some (model_hdroff sp c pj bs desc, s))) = true.
+  Proof.
+    intros Hel Hwp Hwb Hfit Hnb [(Hc & Hh & Hb0 & Hp) | (Hc & Hh & Hb)]; unfold closed_file; rewrite Hc.
+    - apply concat_map_nil in Hp; [|apply encoff_nonnil]. now rewrite Hp.
+    - set (h := model_hdroff sp c pj bs desc) in *.
+      assert (Hnbc : nb_of c = m_rows pj) by (unfold nb_of; now rewrite Hel).
+      unfold split_file, fileoff_ok. rewrite Hb. rewrite <- app_assoc.
+      rewrite zskipn_app_exact by reflexivity.
+      rewrite hdroff_ok_model.
+      change (ho_prows h) with (m_rows pj). change (ho_pcols h) with (m_cols pj).
+      change (ho_brows h) with (m_rows bs). change (ho_bcols h) with (m_cols bs).
+      change (ho_nbases h) with (m_rows pj).
+      assert (Hlen : zlen (concat (map encoff accoff)) = zlen accoff * (36 + 4 * m_rows pj)).
+      { apply zlen_concat_const. intros x Hx. rewrite zlen_encoff.
+        rewrite Forall_forall in Hnb. rewrite (Hnb x Hx). lia. }
+      destruct Hwp as (Hpr & Hpc & Hpl & Hpb). destruct Hwb as (Hbr & Hbc & Hbl & Hbb).
+      assert (Htail : zlen (off_header_tail pj bs) = 8 * (m_rows pj * m_cols pj) + 8 * (m_rows bs * m_cols bs)).
+      { unfold off_header_tail. rewrite zlen_app, !zlen_enc_u64s. lia. }
+      rewrite !zlen_app, Hlen, Htail.
+      destruct (0 <=? zlen (renderoff h)) eqn:E0; [|pose proof (zlen_nonneg (renderoff h)); lia].
+      replace (zlen (renderoff h) + (8 * (m_rows pj * m_cols pj) + 8 * (m_rows bs * m_cols bs) + zlen accoff * (36 + 4 * m_rows pj)) =?
+               zlen (renderoff h) + 8 * (m_rows pj * m_cols pj) + 8 * (m_rows bs * m_cols bs) + zlen accoff * (36 + 4 * m_rows pj))
+        with true by (symmetry; apply Z.eqb_eq; lia).
+      cbn [andb].
+      change (concat (map encoff accoff))
+        with (concat (map (fun r => off_record (zlen (r_data r)) (r_pre r) (r_frame r) (r_ns r)
+                                               (r_mean r) (r_delta r) (r_resid r) (r_coefs r)) accoff)).
+      rewrite off_roundtrip_lemma; [| lia | repeat split; assumption | repeat split; assumption |].
+      + cbn [ob_proj ob_basis ob_recs]. rewrite !zlist_eqb_refl. cbn [andb].
+        apply list_eqb_refl, doff_eqb_refl.
+      + rewrite Forall_forall in *. intros r Hr.
+        destruct (Hfit r Hr) as (H1 & H2 & H3 & H4 & H5 & H6 & H7 & H8 & H9 & H10 & H11).
+        specialize (Hnb r Hr). repeat split; try assumption; try apply H4; try apply H2; try apply H3;
+          try apply H8; try apply H9; try apply H10; lia.
+  Qed.
+End Stop.
+
+(* ================================================================ every model history passes the checker *)
+
+Lemma existsb_map_pause ps b : existsb has_writer (map (fun p => set_pause p b) ps) = existsb has_writer ps.
+Proof. induction ps as [|p ps IH]; [reflexivity|]. cbn [map existsb]. now rewrite IH. Qed.
+
+Section Main.
+  Variable render22 : hdr22 -> list Z.
+  Variable render3 : hdr3 -> list Z.
+  Variable renderoff : hdroff -> list Z.
+  Variable sp : srcp.
+  Variable cs : list chanp.
+  Hypothesis Hwf : cfg_wf sp cs.
+
+  Notation publish := (publish render22 render3 renderoff).
+  Notation bstep := (bstep render22 render3 renderoff true).
+  Notation brun := (brun render22 render3 renderoff true).
+  Notation stop_chan := (stop_chan render22 render3 renderoff).
+  Notation chan_rel := (chan_rel render22 render3 renderoff).
+  Notation BInv := (BInv render22 render3 renderoff).
+
+  Let Hns : 0 <= sp_nsamp sp. Proof. apply Hwf. Qed.
+  Let Hdec : dec7_near (sp_tbn sp) (sp_tbd sp) (sp_tbm sp) (sp_tbe sp) = true. Proof. apply Hwf. Qed.
+  Let Hf64 : f64_near (sp_tbn sp) (sp_tbd sp) (sp_tb64 sp) = true. Proof. apply Hwf. Qed.
+
+  (* ---- STOP ---- *)
+  Lemma stop_rel st c acc accoff p :
+    In c cs -> chan_rel sp st c acc accoff p ->
+    chan_files_ok sp st c acc accoff (snd (stop_chan p)) = true.
+  Proof.
+    intros Hin (Hpz & Hf1 & Hf2 & Hnb & H22 & H3 & Hoff).
+    unfold chan_files_ok, Model.stop_chan. cbn [snd cf22 cf3 cfoff].
+    apply andb_true_iff; split; [apply andb_true_iff; split|].
+    - destruct (p22 p) as [[h s]|].
+      + destruct H22 as (-> & -> & Hi). apply file22_ok_closed; assumption.
+      + rewrite H22. reflexivity.
+    - destruct (p3 p) as [[h s]|].
+      + destruct H3 as (-> & -> & Hi). apply file3_ok_closed; assumption.
+      + rewrite H3. reflexivity.
+    - destruct (poff p) as [[[[h pj] bs] s]|].
+      + destruct Hoff as (-> & (desc & Hel & ->) & Hi). rewrite Hel.
+        assert (Hm : matrix_wf pj /\ matrix_wf bs).
+        { destruct Hwf as (_ & _ & _ & _ & Hmx). unfold off_eligible in Hel.
+          destruct (cp_proj c) as [[[pj' bs'] d']|] eqn:Ep; [|discriminate].
+          destruct ((0 <? m_rows pj') && (0 <? m_cols pj')); [|discriminate]. inversion Hel; subst.
+          eapply Hmx; eauto. }
+        apply fileoff_ok_closed; try assumption; apply Hm.
+      + destruct Hoff as [-> | ->]; [reflexivity|]. destruct (s_toff st); reflexivity.
+  Qed.
+
+  Lemma stop_all st : forall cs' accs accoffs ps,
+    incl cs' cs -> all4 (chan_rel sp st) cs' accs accoffs ps ->
+    all_chans_ok sp st cs' accs accoffs (map snd (map stop_chan ps)) = true.
+  Proof.
+    intros cs' accs accoffs ps Hincl X. induction X as [|c a ao p cs' accs accoffs ps HR X IH]; [reflexivity|].
+    cbn [map all_chans_ok]. rewrite (stop_rel st c a ao p); [| apply Hincl; now left | assumption].
+    cbn [andb]. apply IH. intros x Hx. apply Hincl. now right.
+  Qed.
+
+  Lemma stop_nowriter p : has_writer (fst (stop_chan p)) = false.
+  Proof. reflexivity. Qed.
+
+  Lemma stop_absent p : has_writer p = false -> all_absent (snd (stop_chan p)) = true.
+  Proof.
+    unfold has_writer, Model.stop_chan. destruct (p22 p), (p3 p), (poff p); try discriminate. reflexivity.
+  Qed.
+
+  (* ---- PAUSE / UNPAUSE ---- *)
+  Lemma pause_rel st b c acc accoff p :
+    chan_rel sp st c acc accoff p ->
+    chan_rel sp (mksst (s_active st) b (s_t22 st) (s_t3 st) (s_toff st) (s_acc st) (s_accoff st)) c acc accoff (set_pause p b).
+  Proof.
+    intros (Hpz & Hf1 & Hf2 & Hnb & H22 & H3 & Hoff).
+    split; [intros _; reflexivity|]. repeat (split; [assumption|]). exact Hoff.
+  Qed.
+
+  Lemma pause_all st b : forall cs' accs accoffs ps,
+    all4 (chan_rel sp st) cs' accs accoffs ps ->
+    all4 (chan_rel sp (mksst (s_active st) b (s_t22 st) (s_t3 st) (s_toff st) (s_acc st) (s_accoff st)))
+         cs' accs accoffs (map (fun p => set_pause p b) ps).
+  Proof.
+    intros cs' accs accoffs ps X. induction X; cbn [map]; constructor; [apply pause_rel; assumption | assumption].
+  Qed.
+
+  Lemma has_writer_set_pause p b : has_writer (set_pause p b) = has_writer p.
+  Proof. reflexivity. Qed.
+
+  (* ---- START ---- *)
+  Lemma start_chan_rel t22 t3 toff c p :
+    has_writer p = false ->
+    let st' := mksst true false t22 t3 toff (map (fun _ => []) cs) (map (fun _ => []) cs) in
+    chan_rel sp st' c [] [] (start_chan true sp t22 t3 toff c p).
+  Proof.
+    intros Hw st'. unfold has_writer in Hw.
+    destruct (p22 p) eqn:E22, (p3 p) eqn:E3, (poff p) eqn:Eoff; try discriminate.
+    assert (Hel : off_eligible c = if has_proj c then match cp_proj c with Some x => Some x | None => None end else None).
+    { unfold off_eligible, has_proj. destruct (cp_proj c) as [[[pj bs] d]|]; [|reflexivity].
+      destruct ((0 <? m_rows pj) && (0 <? m_cols pj)); reflexivity. }
+    unfold start_chan, chan_rel.
+    destruct t22, t3, toff; cbn [andb];
+      destruct (cp_proj c) as [[[pj bs] d]|] eqn:Ep; try (destruct (has_proj c) eqn:Ehp);
+      cbn [set22 set3 set3_position setoff p22 p3 poff p_paused h3_fmt h3_ver h3_tb h3_rows h3_cols h3_sfdiv h3_sfoff
+           s_paused s_t22 s_t3 s_toff st'];
+      rewrite ?E22, ?E3, ?Eoff;
+      (split; [intros X; try reflexivity;
+                      try (exfalso; revert X; unfold has_writer; cbn [p22 p3 poff]; rewrite ?E22, ?E3, ?Eoff; discriminate)|]);
+      repeat (split; [try constructor; try reflexivity; try apply WInv_init|]);
+      try reflexivity; try apply WInv_init; try (now left); try (right; rewrite Hel; reflexivity);
+      try (exists d; rewrite Hel; split; reflexivity).
+    all: try (unfold has_writer; cbn [p22 p3 poff]; rewrite ?E22, ?E3, ?Eoff; intros X; discriminate X).
+  Qed.
+
+  Lemma start_chan_writer t22 t3 toff c p :
+    has_writer p = false ->
+    has_writer (start_chan true sp t22 t3 toff c p) = t22 || t3 || (toff && has_proj c).
+  Proof.
+    intros Hw. unfold has_writer in Hw.
+    destruct (p22 p) eqn:E22, (p3 p) eqn:E3, (poff p) eqn:Eoff; try discriminate.
+    unfold start_chan, has_writer.
+    destruct t22, t3, toff; cbn [andb orb];
+      destruct (cp_proj c) as [[[pj bs] d]|] eqn:Ep; try (destruct (has_proj c) eqn:Ehp);
+      cbn [set22 set3 set3_position setoff p22 p3 poff p_paused]; rewrite ?E22, ?E3, ?Eoff; try reflexivity.
+    all: unfold has_proj in Ehp; rewrite Ep in Ehp; discriminate.
+  Qed.
+
+  Lemma start_all_rel t22 t3 toff : forall cs' ps,
+    Forall (fun p => has_writer p = false) ps -> length ps = length cs' ->
+    let st' := mksst true false t22 t3 toff (map (fun _ => []) cs) (map (fun _ => []) cs) in
+    all4 (chan_rel sp st') cs' (map (fun _ => []) cs') (map (fun _ => []) cs') (start_all true sp t22 t3 toff cs' ps).
+  Proof.
+    induction cs' as [|c cs' IH]; intros ps Hnw Hlen st'.
+    - destruct ps; [constructor | discriminate].
+    - destruct ps as [|p ps]; [discriminate|]. inversion Hnw; subst.
+      cbn [map start_all]. constructor; [apply start_chan_rel; assumption|].
+      apply IH; [assumption | cbn in Hlen; lia].
+  Qed.
+
+  Lemma start_all_writer t22 t3 toff : forall cs' ps,
+    Forall (fun p => has_writer p = false) ps -> length ps = length cs' ->
+    existsb has_writer (start_all true sp t22 t3 toff cs' ps) =
+    match cs' with [] => false | _ => t22 || t3 end || (toff && existsb has_proj cs').
+  Proof.
+    induction cs' as [|c cs' IH]; intros ps Hnw Hlen.
+    - destruct ps; [|discriminate]. cbn. now rewrite andb_false_r.
+    - destruct ps as [|p ps]; [discriminate|]. inversion Hnw; subst.
+      cbn [start_all existsb]. rewrite start_chan_writer by assumption.
+      rewrite IH by (try assumption; cbn in Hlen; lia).
+      destruct t22, t3, toff, (has_proj c), cs'; cbn; try reflexivity; try (now rewrite ?orb_true_r).
+  Qed.
+
+  Lemma chan_rel_ext st st' c a ao p :
+    s_paused st' = s_paused st -> s_t22 st' = s_t22 st -> s_t3 st' = s_t3 st -> s_toff st' = s_toff st ->
+    chan_rel sp st c a ao p -> chan_rel sp st' c a ao p.
+  Proof. unfold Proofs.chan_rel. intros -> -> -> ->. exact (fun x => x). Qed.
+
+  (* ---- PUBLISH on channel i ---- *)
+  Lemma pub_all st rs : forall cs' accs accoffs ps i,
+    s_active st = true -> s_paused st = false ->
+    all4 (chan_rel sp st) cs' accs accoffs ps -> (i < length cs')%nat ->
+    Forall (pubrec_fits sp (nth i cs' dflt_chan)) rs ->
+    let st' := mksst true false (s_t22 st) (s_t3 st) (s_toff st) (s_acc st) (s_accoff st) in
+    all4 (chan_rel sp st') cs' (app_at accs i rs) (app_at accoffs i (off_prefix (nb_of (nth i cs' dflt_chan)) rs))
+         (upd ps i (fun _ => fst (publish (nth i ps pub_init) rs)))
+    /\ existsb has_writer (upd ps i (fun _ => fst (publish (nth i ps pub_init) rs))) = existsb has_writer ps.
+  Proof.
+    intros cs' accs accoffs ps i Hact Hpa X. revert i.
+    induction X as [|c a ao p cs' accs accoffs ps HR X IH]; intros i Hi Hfit st'; [cbn in Hi; lia|].
+    destruct i as [|i].
+    - cbn [nth app_at upd existsb] in *.
+      destruct (publish_rel render22 render3 renderoff sp st c a ao p rs Hact Hpa HR Hfit) as (HR' & Hw').
+      split; [|now rewrite Hw'].
+      constructor; [exact HR'|].
+      eapply all4_impl; [|exact X]. intros c0 a0 ao0 p0 _ Q.
+      eapply chan_rel_ext; [| | | | exact Q]; cbn; auto.
+    - cbn [nth app_at upd existsb] in *.
+      destruct (IH i ltac:(cbn [length] in Hi; lia) Hfit) as (IH1 & IH2). split; [|now rewrite IH2].
+      constructor; [|exact IH1].
+      eapply chan_rel_ext; [| | | | exact HR]; cbn; auto.
+  Qed.
+
+  Lemma upd_same {A} (l : list A) i d : upd l i (fun _ => nth i l d) = l.
+  Proof.
+    revert i; induction l as [|x l IH]; intros i; [destruct i; reflexivity|].
+    destruct i; cbn [upd nth]; [reflexivity | now rewrite IH].
+  Qed.
+
+  Lemma nth_forall {A} (P : A -> Prop) l i d : Forall P l -> P d -> P (nth i l d).
+  Proof. intros H Hd. revert i; induction H; intros [|i]; cbn; auto. Qed.
+
+  Lemma all4_nth_rel st : forall cs' accs accoffs ps i,
+    all4 (chan_rel sp st) cs' accs accoffs ps -> (i < length cs')%nat ->
+    exists a ao, chan_rel sp st (nth i cs' dflt_chan) a ao (nth i ps pub_init).
+  Proof.
+    intros cs' accs accoffs ps i X. revert i. induction X; intros i Hi; [cbn in Hi; lia|].
+    destruct i; cbn [nth]; [eauto | apply IHX; cbn in Hi; lia].
+  Qed.
+
+  (* ---- one step ---- *)
+  Lemma step_preserves st ps o :
+    op_wf sp cs o -> BInv sp cs st ps ->
+    let r := bstep sp cs ps o in
+    step_ok sp cs st o (snd r) = true /\ BInv sp cs (sstep cs st o (snd r)) (fst r).
+  Proof.
+    intros Hop HI r. subst r. destruct Hwf as (Hne & _).
+    destruct o as [t22 t3 toff | ch rs | ch | | | ].
+    - (* START *)
+      cbn [Model.bstep]. unfold start.
+      destruct (negb (t22 || toff || t3)) eqn:Eno; [split; [reflexivity | exact HI]|].
+      destruct (existsb has_writer ps) eqn:Eex; [split; [reflexivity | exact HI]|].
+      destruct (toff && negb (existsb has_proj cs)) eqn:Enp; [split; [reflexivity | exact HI]|].
+      cbn [fst snd step_ok sstep].
+      unfold Proofs.BInv in HI. destruct (s_active st) eqn:Eact.
+      { destruct HI as (_ & HI). congruence. }
+      destruct HI as (Hnw & Hlen). split; [reflexivity|].
+      unfold Proofs.BInv. cbn [s_active s_acc s_accoff]. split; [apply start_all_rel; assumption|].
+      rewrite start_all_writer by assumption.
+      destruct cs as [|c0 cs0]; [congruence|].
+      destruct t22, t3, toff; cbn in *; try reflexivity; try discriminate.
+      destruct (has_proj c0 || existsb has_proj cs0); [reflexivity | discriminate].
+    - (* PUBLISH *)
+      destruct Hop as (Hch & Hfit). cbn [Model.bstep].
+      unfold Proofs.BInv in HI.
+      assert (Hlen : length ps = length cs).
+      { destruct (s_active st); [destruct HI as (X & _); apply all4_length in X; lia | apply HI]. }
+      destruct ((ch <? 0) || (zlen ps <=? ch)) eqn:Erange; [unfold zlen in *; lia|].
+      destruct (publish (nth (Z.to_nat ch) ps pub_init) rs) as [p' ret] eqn:Epub. cbn [fst snd].
+      assert (Hret : ret = BOk \/ ret = BErr).
+      { pose proof (publish_ret render22 render3 renderoff (nth (Z.to_nat ch) ps pub_init) rs) as H. rewrite Epub in H. exact H. }
+      split.
+      { destruct Hret as [-> | ->]; cbn [step_ok]; apply andb_true_iff; split; lia. }
+      assert (Hp' : p' = fst (publish (nth (Z.to_nat ch) ps pub_init) rs)) by now rewrite Epub.
+      unfold Proofs.BInv.
+      assert (Hss : sstep cs st (BPub ch rs) ret =
+                    if s_active st && negb (s_paused st)
+                    then mksst true false (s_t22 st) (s_t3 st) (s_toff st)
+                               (app_at (s_acc st) (Z.to_nat ch) rs)
+                               (app_at (s_accoff st) (Z.to_nat ch) (off_prefix (nb_of (nth (Z.to_nat ch) cs dflt_chan)) rs))
+                    else st).
+      { destruct Hret as [-> | ->]; reflexivity. }
+      rewrite Hss. clear Hss.
+      destruct (s_active st) eqn:Eact.
+      + destruct HI as (X & Hex). destruct (s_paused st) eqn:Epa; cbn [andb negb].
+        * (* paused: nothing changes *)
+          rewrite Eact. split; [|].
+          -- destruct (all4_nth_rel st _ _ _ _ (Z.to_nat ch) X ltac:(unfold zlen in *; lia)) as (a & ao & HR).
+             destruct HR as (Hpz & _).
+             destruct (has_writer (nth (Z.to_nat ch) ps pub_init)) eqn:Ehw.
+             ++ rewrite Hp', publish_paused by (rewrite (Hpz eq_refl); exact Epa). now rewrite upd_same.
+             ++ rewrite Hp', publish_nowriter by exact Ehw. now rewrite upd_same.
+          -- destruct (all4_nth_rel st _ _ _ _ (Z.to_nat ch) X ltac:(unfold zlen in *; lia)) as (a & ao & HR).
+             destruct HR as (Hpz & _).
+             destruct (has_writer (nth (Z.to_nat ch) ps pub_init)) eqn:Ehw.
+             ++ rewrite Hp', publish_paused by (rewrite (Hpz eq_refl); exact Epa). now rewrite upd_same.
+             ++ rewrite Hp', publish_nowriter by exact Ehw. now rewrite upd_same.
+        * cbn [s_active s_acc s_accoff].
+          destruct (pub_all st rs cs (s_acc st) (s_accoff st) ps (Z.to_nat ch) Eact Epa X ltac:(unfold zlen in *; lia) Hfit) as (Y1 & Y2).
+          rewrite Hp'. split; [|now rewrite Y2].
+          eapply all4_impl; [|exact Y1]. intros c0 a0 ao0 p0 _ Q. exact Q.
+      + cbn [andb]. rewrite Eact. destruct HI as (Hnw & _).
+        assert (Ehw : has_writer (nth (Z.to_nat ch) ps pub_init) = false) by (apply nth_forall; [assumption | reflexivity]).
+        rewrite Hp', publish_nowriter by exact Ehw. rewrite upd_same. split; assumption.
+    - (* FLUSH *)
+      cbn [Model.bstep fst snd step_ok sstep]. cbn in Hop. split; [apply andb_true_iff; split; lia | exact HI].
+    - (* PAUSE *)
+      cbn [Model.bstep fst snd step_ok sstep]. split; [reflexivity|].
+      unfold Proofs.BInv in *. cbn [s_active s_acc s_accoff]. destruct (s_active st).
+      + destruct HI as (X & Hex). split.
+        * apply (pause_all st _ _ _ _ _ X).
+        * rewrite existsb_map_pause. exact Hex.
+      + destruct HI as (Hnw & Hlen). split; [|now rewrite map_length].
+        apply Forall_map. eapply Forall_impl; [|exact Hnw]. intros p Hp. exact Hp.
+    - (* UNPAUSE *)
+      cbn [Model.bstep fst snd step_ok sstep]. split; [reflexivity|].
+      unfold Proofs.BInv in *. cbn [s_active s_acc s_accoff]. destruct (s_active st).
+      + destruct HI as (X & Hex). split.
+        * apply (pause_all st _ _ _ _ _ X).
+        * rewrite existsb_map_pause. exact Hex.
+      + destruct HI as (Hnw & Hlen). split; [|now rewrite map_length].
+        apply Forall_map. eapply Forall_impl; [|exact Hnw]. intros p Hp. exact Hp.
+    - (* STOP *)
+      cbn [Model.bstep fst snd step_ok sstep].
+      unfold Proofs.BInv in *. cbn [s_active]. destruct (s_active st).
+      + destruct HI as (X & Hex). split.
+        * apply stop_all; [apply incl_refl | exact X].
+        * split; [| rewrite !map_length; apply all4_length in X; lia].
+          apply Forall_map, Forall_map. apply Forall_forall. intros; reflexivity.
+      + destruct HI as (Hnw & Hlen). split.
+        * apply andb_true_iff; split; [unfold zlen; rewrite !map_length; lia|].
+          rewrite forallb_forall. intros x Hx. apply in_map_iff in Hx as (y & <- & Hy).
+          apply in_map_iff in Hy as (p & <- & Hp). apply stop_absent. rewrite Forall_forall in Hnw. now apply Hnw.
+        * split; [| now rewrite !map_length].
+          apply Forall_map, Forall_map. apply Forall_forall. intros; reflexivity.
+  Qed.
+End Main.
+
+(* ================================================================ whole histories *)
+
+Section Histories.
+  Variable render22 : hdr22 -> list Z.
+  Variable render3 : hdr3 -> list Z.
+  Variable renderoff : hdroff -> list Z.
+  Variable sp : srcp.
+  Variable cs : list chanp.
+  Hypothesis Hwf : cfg_wf sp cs.
+
+  Notation bstep := (bstep render22 render3 renderoff true).
+  Notation brun := (brun render22 render3 renderoff true).
+  Notation BInv := (BInv render22 render3 renderoff).
+
+  Lemma BInv_init : BInv sp cs (s_init cs) (binit cs).
+  Proof.
+    unfold Proofs.BInv, s_init, binit. cbn [s_active]. split; [|now rewrite map_length].
+    apply Forall_map, Forall_forall. intros; reflexivity.
+  Qed.
+
+  Lemma brun_cons ps o ops :
+    brun sp cs ps (o :: ops) =
+    (fst (brun sp cs (fst (bstep sp cs ps o)) ops), snd (bstep sp cs ps o) :: snd (brun sp cs (fst (bstep sp cs ps o)) ops)).
+  Proof.
+    cbn [Model.brun]. destruct (bstep sp cs ps o) as [ps1 r]. cbn [fst snd].
+    destruct (brun sp cs ps1 ops) as [ps2 rs]. reflexivity.
+  Qed.
+
+  Lemma run_passes : forall ops st ps,
+    Forall (op_wf sp cs) ops -> BInv sp cs st ps ->
+    check_from sp cs st (combine ops (snd (brun sp cs ps ops))) = true.
+  Proof.
+    induction ops as [|o ops IH]; intros st ps Hops HI; [reflexivity|].
+    inversion Hops; subst. rewrite brun_cons. cbn [snd combine check_from].
+    destruct (step_preserves render22 render3 renderoff sp cs Hwf st ps o H1 HI) as (Hok & HI').
+    rewrite Hok. cbn [andb]. apply IH; assumption.
+  Qed.
+
+  Lemma model_passes_checker_lemma ops :
+    Forall (op_wf sp cs) ops ->
+    C05_bench_check sp cs (combine ops (snd (brun sp cs (binit cs) ops))) = true.
+  Proof. intros H. apply run_passes; [exact H | apply BInv_init]. Qed.
+
+  Lemma sst_before_0 st h : sst_before cs st h 0 = st.
+  Proof. destruct h; reflexivity. Qed.
+
+  (* the invariant holds before every step *)
+  Lemma inv_before : forall ops st ps k,
+    Forall (op_wf sp cs) ops -> BInv sp cs st ps ->
+    BInv sp cs (sst_before cs st (combine ops (snd (brun sp cs ps ops))) k) (fst (brun sp cs ps (firstn k ops))).
+  Proof.
+    induction ops as [|o ops IH]; intros st ps k Hops HI.
+    - destruct k; cbn; exact HI.
+    - destruct k as [|k]; [rewrite sst_before_0; exact HI|].
+      inversion Hops; subst. rewrite brun_cons. cbn [snd combine sst_before firstn].
+      rewrite brun_cons. cbn [fst].
+      destruct (step_preserves render22 render3 renderoff sp cs Hwf st ps o H1 HI) as (_ & HI').
+      apply IH; assumption.
+  Qed.
+End Histories.
+
+(* ---- what the invariant says about file contents, in plain terms ---- *)
+Lemma WInv_content hb s pay :
+  WInv hb s pay ->
+  (w_created s = true -> w_bytes s = hb ++ pay) /\ (w_created s = false -> pay = []).
+Proof.
+  intros [(Hc & _ & _ & Hp) | (Hc & _ & Hb)]; split; intros X; try congruence; assumption.
+Qed.
+
+Lemma file_is_header_plus_records_lemma :
+  forall (render22 : hdr22 -> list Z) (render3 : hdr3 -> list Z) (renderoff : hdroff -> list Z) sp cs ops k,
+    cfg_wf sp cs -> Forall (op_wf sp cs) ops ->
+    let obs := snd (brun render22 render3 renderoff true sp cs (binit cs) ops) in
+    let st := sst_before cs (s_init cs) (combine ops obs) k in
+    let ps := fst (brun render22 render3 renderoff true sp cs (binit cs) (firstn k ops)) in
+    s_active st = true ->
+    all4 (fun c acc accoff p =>
+      (* LJH 2.2 *)
+      (s_t22 st = true -> p22 p <> None) /\
+      (forall h s, p22 p = Some (h, s) ->
+         let A := accepted22 (sp_nsamp sp) acc in
+         (w_created s = false -> A = []) /\
+         (w_created s = true ->
+            w_bytes s = render22 h ++ concat (map (fun r => ljh22_record (sp_sfdiv sp) (cp_sfoff c) (r_frame r)
+                                                                         (Z.quot (r_ns r) 1000) (r_data r)) A)
+            /\ zlen (w_bytes s) = zlen (render22 h) + zlen A * (16 + 2 * sp_nsamp sp))) /\
+      (* LJH 3 *)
+      (s_t3 st = true -> p3 p <> None) /\
+      (forall h s, p3 p = Some (h, s) ->
+         (w_created s = false -> acc = []) /\
+         (w_created s = true ->
+            w_bytes s = render3 h ++ concat (map (fun r => ljh3_record (r_pre r + 1) (r_frame r) (Z.quot (r_ns r) 1000) (r_data r)) acc)
+            /\ zlen (w_bytes s) = zlen (render3 h) + sum_z (map (fun r => 24 + 2 * zlen (r_data r)) acc))) /\
+      (* OFF *)
+      (s_toff st = true -> off_eligible c <> None -> poff p <> None) /\
+      (forall h pj bs s, poff p = Some (h, pj, bs, s) ->
+         (w_created s = false -> accoff = []) /\
+         (w_created s = true ->
+            w_bytes s = renderoff h ++ off_header_tail pj bs ++
+                        concat (map (fun r => off_record (zlen (r_data r)) (r_pre r) (r_frame r) (r_ns r)
+                                                         (r_mean r) (r_delta r) (r_resid r) (r_coefs r)) accoff)
+            /\ zlen (w_bytes s) = zlen (renderoff h) + 8 * zlen (m_bits pj) + 8 * zlen (m_bits bs)
+                                  + zlen accoff * (36 + 4 * m_rows pj))))
+      cs (s_acc st) (s_accoff st) ps.
+Proof.
+  intros render22 render3 renderoff sp cs ops k Hwf Hops obs st ps Hact.
+  pose proof (inv_before render22 render3 renderoff sp cs Hwf ops (s_init cs) (binit cs) k Hops
+                         (BInv_init render22 render3 renderoff sp cs)) as HI.
+  fold obs in HI. fold st in HI. fold ps in HI. unfold BInv in HI. rewrite Hact in HI. destruct HI as (X & _).
+  eapply all4_impl; [|exact X]. intros c acc accoff p _ (Hpz & Hf1 & Hf2 & Hnb & H22 & H3 & Hoff).
+  split; [|split; [|split; [|split; [|split]]]].
+  - intros T E. rewrite E in H22. congruence.
+  - intros h s E. rewrite E in H22. destruct H22 as (_ & -> & Hi).
+    apply WInv_content in Hi as (Hc1 & Hc0). split.
+    + intros Z0. apply Hc0 in Z0. apply concat_map_nil in Z0; [exact Z0 | apply penc22_nonnil].
+    + intros Z1. rewrite (Hc1 Z1). split; [reflexivity|].
+      rewrite zlen_app. f_equal. apply zlen_concat_const. intros x Hx.
+      rewrite penc22_as_enc, zlen_enc22. change (r_data (rec22_args x)) with (r_data x).
+      unfold accepted22 in Hx. apply filter_In in Hx as [_ Hx]. lia.
+  - intros T E. rewrite E in H3. congruence.
+  - intros h s E. rewrite E in H3. destruct H3 as (_ & -> & Hi).
+    apply WInv_content in Hi as (Hc1 & Hc0). split.
+    + intros Z0. apply Hc0 in Z0. apply concat_map_nil in Z0; [exact Z0 | apply penc3_nonnil].
+    + intros Z1. rewrite (Hc1 Z1). split; [reflexivity|]. rewrite zlen_app. f_equal. apply sum_sizes3.
+  - intros T Hel E. rewrite E in Hoff. destruct Hoff; congruence.
+  - intros h pj bs s E. rewrite E in Hoff. destruct Hoff as (_ & (desc & Hel & ->) & Hi).
+    apply WInv_content in Hi as (Hc1 & Hc0). split.
+    + intros Z0. apply Hc0 in Z0. apply concat_map_nil in Z0; [exact Z0 | apply encoff_nonnil].
+    + intros Z1. rewrite (Hc1 Z1). split; [now rewrite <- app_assoc|].
+      rewrite !zlen_app. unfold off_header_tail. rewrite zlen_app, !zlen_enc_u64s.
+      assert (Hl : zlen (concat (map encoff accoff)) = zlen accoff * (36 + 4 * m_rows pj)).
+      { apply zlen_concat_const. intros x Hx. rewrite zlen_encoff.
+        rewrite Forall_forall in Hnb. rewrite (Hnb x Hx). unfold nb_of. rewrite Hel. lia. }
+      rewrite Hl. lia.
+Qed.
+
+(* what STOP reports about each channel is exactly that content, cut at the header length *)
+Lemma stop_reports_contents_lemma :
+  forall (render22 : hdr22 -> list Z) (render3 : hdr3 -> list Z) (renderoff : hdroff -> list Z) sp cs ps,
+    snd (bstep render22 render3 renderoff true sp cs ps BStop) =
+    BFiles (map (fun p =>
+      mkcf (match p22 p with
+            | Some (h, s) => if w_created s then FFile h (zlen (w_bytes s)) (zlen (render22 h)) (zskipn (zlen (render22 h)) (w_bytes s)) else FAbsent
+            | None => FAbsent end)
+           (match p3 p with
+            | Some (h, s) => if w_created s then FFile h (zlen (w_bytes s)) (zlen (render3 h)) (zskipn (zlen (render3 h)) (w_bytes s)) else FAbsent
+            | None => FAbsent end)
+           (match poff p with
+            | Some (h, _, _, s) => if w_created s then FFile h (zlen (w_bytes s)) (zlen (renderoff h)) (zskipn (zlen (renderoff h)) (w_bytes s)) else FAbsent
+            | None => FAbsent end)) ps).
+Proof.
+  intros. cbn [bstep snd]. rewrite map_map. reflexivity.
+Qed.
+
+(* ================================================================ the code before the fix *)
+Lemma pre_fix_witness :
+  let sp := mksrcp 1 [76] 4 1 4 1 100000 4532020583610935537 1000000 (-5) in
+  let cs := [mkchanp 0 [99] 1 4 2 2 1 2 0 0 [] None] in
+  let ops := [BStart false true false; BPub 0 [mkrec 7 1000 1 [1; 2; 3; 4] 0 0 0 []]; BStop] in
+  cfg_wf sp cs /\ Forall (op_wf sp cs) ops /\
+  C05_bench_check sp cs (combine ops (snd (brun (fun _ => []) (fun _ => []) (fun _ => []) false sp cs (binit cs) ops))) = false /\
+  C05_bench_check sp cs (combine ops (snd (brun (fun _ => []) (fun _ => []) (fun _ => []) true sp cs (binit cs) ops))) = true.
+Proof.
+  intros sp cs ops. split; [|split; [|split]].
+  - split; [discriminate|]. split; [cbn; lia|]. split; [vm_compute; reflexivity|]. split; [vm_compute; reflexivity|].
+    intros c pj bs desc [<- | []] H. discriminate H.
+  - repeat constructor; cbn; try lia; discriminate.
+  - vm_compute. reflexivity.
+  - vm_compute. reflexivity.
+Qed.
+
+Lemma model_passes_checker_full :
+  forall (render22 : hdr22 -> list Z) (render3 : hdr3 -> list Z) (renderoff : hdroff -> list Z) sp cs ops,
+    cfg_wf sp cs -> Forall (op_wf sp cs) ops ->
+    C05_bench_check sp cs (combine ops (snd (brun render22 render3 renderoff true sp cs (binit cs) ops))) = true.
+Proof. intros. now apply model_passes_checker_lemma. Qed.
